@@ -2,7 +2,8 @@
 import os
 import sys
 
-REPO_SRC = "/repo/src"
+# MC_REPO_SRC is a debugging aid only (scratch worktree with a seeded change); registered commands never set it
+REPO_SRC = os.environ.get("MC_REPO_SRC", "/repo/src")
 VERIF = os.path.dirname(os.path.dirname(os.path.abspath(__file__)))
 
 BASE_ENV = {
